@@ -1485,3 +1485,211 @@ func vgGIEnumerate(maxMethods int) []*vgGISpec {
 	}
 	return out
 }
+
+// ---------------------------------------------------------------------------------------------
+// third family: declarations inside the body of a used (exported) function
+//
+//	type s struct{ f int }; func (r s|*s) m() {}; type i interface{ m() }; func g() {}
+//	func Use() {
+//		type t struct { [a int] [b int] [s | *s] }     local named struct, 0-2 fields, embedding
+//		[type la = t]                                    references go through the local alias
+//		references (every subset of at most two of the admissible ones):
+//		  var _ i = t{} | &t{}        implicit conversion to the package-level interface (promoted m)
+//		  type li interface{ m() }; var _ li = ...       ... to a local interface
+//		  v.m()    _ = v.m            promoted selector, method value
+//		  t{a: 0}  t{0, 0, s{}}       keyed / unkeyed literal
+//		  u(t{}) with package-level `type u struct{ same fields }`, and a read of u.a | u.f-less
+//		  v.a      t{}                field read, plain use
+//		extras: nothing | unused local const and type | local const, var, closure calling g |
+//		        closure value that calls s.m explicitly
+//	}
+
+type vgLocalSpec struct {
+	Fields  int   `json:"fields"`          // 0..2 named fields a, b
+	Embed   int   `json:"embed"`           // 0 none, 1 s, 2 *s
+	PtrRecv bool  `json:"ptr,omitempty"`   // receiver of s.m
+	Alias   bool  `json:"alias,omitempty"` // references use the local alias la
+	Extras  int   `json:"extras"`
+	Refs    []int `json:"refs"` // ascending
+}
+
+const (
+	vlIfacePkg = iota
+	vlIfaceLocal
+	vlPromCall
+	vlMethVal
+	vlKeyed
+	vlUnkeyed
+	vlConv
+	vlFieldRead
+	vlPlain
+	vlNumRefs
+)
+
+var vlRefNames = [...]string{"ipkg", "ilocal", "promcall", "mval", "keyed", "unkeyed", "conv", "fread", "plain"}
+
+func (s *vgLocalSpec) Key() string {
+	var b strings.Builder
+	fmt.Fprintf(&b, "L:f%d,e%d", s.Fields, s.Embed)
+	if s.PtrRecv {
+		b.WriteString(",ptr")
+	}
+	if s.Alias {
+		b.WriteString(",alias")
+	}
+	fmt.Fprintf(&b, ",x%d|", s.Extras)
+	for k, r := range s.Refs {
+		if k > 0 {
+			b.WriteByte(',')
+		}
+		b.WriteString(vlRefNames[r])
+	}
+	return b.String()
+}
+
+func (s *vgLocalSpec) admissible(r int) bool {
+	switch r {
+	case vlIfacePkg, vlIfaceLocal, vlPromCall, vlMethVal:
+		return s.Embed != 0
+	case vlKeyed, vlFieldRead:
+		return s.Fields >= 1
+	case vlUnkeyed:
+		return s.Fields >= 1 || s.Embed != 0
+	}
+	return true
+}
+
+func (s *vgLocalSpec) has(r int) bool {
+	for _, x := range s.Refs {
+		if x == r {
+			return true
+		}
+	}
+	return false
+}
+
+func (s *vgLocalSpec) structBody(indent string) string {
+	var b strings.Builder
+	if s.Fields >= 1 {
+		b.WriteString(indent + "a int\n")
+	}
+	if s.Fields >= 2 {
+		b.WriteString(indent + "b int\n")
+	}
+	switch s.Embed {
+	case 1:
+		b.WriteString(indent + "s\n")
+	case 2:
+		b.WriteString(indent + "*s\n")
+	}
+	return b.String()
+}
+
+func (s *vgLocalSpec) Source() string {
+	var b strings.Builder
+	b.WriteString("package p\n\ntype s struct {\n\tf int\n}\n\n")
+	if s.PtrRecv {
+		b.WriteString("func (r *s) m() {\n}\n")
+	} else {
+		b.WriteString("func (r s) m() {\n}\n")
+	}
+	b.WriteString("\ntype i interface {\n\tm()\n}\n")
+	if s.has(vlConv) {
+		b.WriteString("\ntype u struct {\n" + s.structBody("\t") + "}\n")
+	}
+	b.WriteString("\nfunc g() {\n}\n\nfunc Use() {\n")
+	b.WriteString("\ttype t struct {\n" + s.structBody("\t\t") + "\t}\n")
+	T := "t"
+	if s.Alias {
+		b.WriteString("\ttype la = t\n")
+		T = "la"
+	}
+	// a value of the local type that has m in its method set
+	val := T + "{}"
+	if s.PtrRecv && s.Embed == 1 {
+		val = "&" + T + "{}"
+	}
+	for _, r := range s.Refs {
+		switch r {
+		case vlIfacePkg:
+			b.WriteString("\tvar _ i = " + val + "\n")
+		case vlIfaceLocal:
+			b.WriteString("\ttype li interface {\n\t\tm()\n\t}\n\tvar _ li = " + val + "\n")
+		case vlPromCall:
+			b.WriteString("\t{\n\t\tvar v " + T + "\n\t\tv.m()\n\t}\n")
+		case vlMethVal:
+			b.WriteString("\t{\n\t\tvar v " + T + "\n\t\t_ = v.m\n\t}\n")
+		case vlKeyed:
+			b.WriteString("\t_ = " + T + "{a: 0}\n")
+		case vlUnkeyed:
+			var vals []string
+			for k := 0; k < s.Fields; k++ {
+				vals = append(vals, "0")
+			}
+			switch s.Embed {
+			case 1:
+				vals = append(vals, "s{}")
+			case 2:
+				vals = append(vals, "nil")
+			}
+			b.WriteString("\t_ = " + T + "{" + strings.Join(vals, ", ") + "}\n")
+		case vlConv:
+			b.WriteString("\t_ = u(" + T + "{})\n")
+			if s.Fields >= 1 {
+				b.WriteString("\t{\n\t\tvar x u\n\t\t_ = x.a\n\t}\n")
+			}
+		case vlFieldRead:
+			b.WriteString("\t{\n\t\tvar v " + T + "\n\t\t_ = v.a\n\t}\n")
+		case vlPlain:
+			b.WriteString("\t_ = " + T + "{}\n")
+		}
+	}
+	switch s.Extras {
+	case 1:
+		b.WriteString("\tconst lc = 1\n\ttype lt struct {\n\t\tx int\n\t}\n")
+	case 2:
+		b.WriteString("\tconst lc = 1\n\tvar lv [lc]int\n\t_ = lv\n\tfn := func() {\n\t\tg()\n\t}\n\tfn()\n")
+	case 3:
+		b.WriteString("\tfn := func() {\n\t\tvar w s\n\t\tw.m()\n\t}\n\t_ = fn\n")
+	}
+	b.WriteString("}\n")
+	return b.String()
+}
+
+// vgLocalEnumerate lists the family; every subset of at most maxRefs admissible references.
+func vgLocalEnumerate(maxRefs int) []*vgLocalSpec {
+	var out []*vgLocalSpec
+	for nref := 0; nref <= maxRefs; nref++ {
+		for fields := 0; fields <= 2; fields++ {
+			for embed := 0; embed <= 2; embed++ {
+				for _, ptr := range []bool{false, true} {
+					for _, alias := range []bool{false, true} {
+						for extras := 0; extras < 4; extras++ {
+							base := vgLocalSpec{Fields: fields, Embed: embed, PtrRecv: ptr, Alias: alias, Extras: extras}
+							var adm []int
+							for r := 0; r < vlNumRefs; r++ {
+								if base.admissible(r) {
+									adm = append(adm, r)
+								}
+							}
+							var rec func(start int, cur []int)
+							rec = func(start int, cur []int) {
+								if len(cur) == nref {
+									sp := base
+									sp.Refs = append([]int{}, cur...)
+									out = append(out, &sp)
+									return
+								}
+								for k := start; k < len(adm); k++ {
+									rec(k+1, append(cur, adm[k]))
+								}
+							}
+							rec(0, nil)
+						}
+					}
+				}
+			}
+		}
+	}
+	return out
+}
